@@ -335,12 +335,13 @@ def lastVal : List (Str × Str) → Str → Option Str
 
 theorem entryOf_eq_typed (hE : Gen.legacyElseRaises = true) (prev : Option (Str × Str)) (v : Str) :
     entryOf prev v = typed v := by
-  unfold entryOf typed
-  split
-  · rfl
-  · split
-    · rfl
-    · simp [hE]
+  unfold entryOf typed typedBare
+  by_cases hc : v.contains ':' = true
+  · simp only [hc, if_true]
+  · by_cases hb : bareRefused v = true
+    · simp only [hc, hb, if_true, Bool.false_eq_true, if_false]
+    · simp only [hc, hb, Bool.false_eq_true, if_false]
+      cases chainBare v <;> simp [hE]
 
 theorem deserLoop_pointwise (hE : Gen.legacyElseRaises = true) :
     ∀ (sec : List (Str × Str)) (prev : Option (Str × Str)) (tbl cs : Table),
@@ -390,33 +391,39 @@ theorem C16_pointwise (sec : List (Str × Str)) (cs : Table) (h : deserialize fa
       rw [this]
       cases lastVal sec p <;> simp [Table.get?]
 
-/-- …and every entry of a section that loads is individually well-formed -/
+theorem deserLoop_all_typed (lg : Bool) : ∀ (sec : List (Str × Str)) (prev : Option (Str × Str)) (tbl t : Table),
+    deserLoop lg sec prev tbl = .ok t → ∀ e ∈ sec, ∃ tv, typed e.2 = .ok tv := by
+  intro sec
+  induction sec with
+  | nil => intro _ _ _ _ e he; simp at he
+  | cons x rest ih =>
+    intro prev tbl t h e he
+    obtain ⟨k, v⟩ := x
+    have hE : Gen.legacyElseRaises = true := by decide
+    simp only [deserLoop, entryOf_eq_typed hE] at h
+    cases ht : typed v with
+    | error e' => simp [ht] at h
+    | ok tv =>
+      simp only [ht] at h
+      simp only [List.mem_cons] at he
+      rcases he with he | he
+      · subst he; exact ⟨tv, ht⟩
+      · exact ih _ _ _ h e he
+
+/-- …and every entry of a section that loads (current or header-less file) is individually well-formed -/
 theorem C16_all_typed (sec : List (Str × Str)) (cs : Table) (h : deserialize false sec = .ok cs) :
     ∀ e ∈ sec, ∃ tv, typed e.2 = .ok tv := by
   unfold deserialize at h
   cases hl : deserLoop false sec none [] with
   | error e => simp [hl] at h
-  | ok t =>
-    clear h
-    have key : ∀ (sec : List (Str × Str)) (prev : Option (Str × Str)) (tbl t : Table),
-        deserLoop false sec prev tbl = .ok t → ∀ e ∈ sec, ∃ tv, typed e.2 = .ok tv := by
-      intro sec
-      induction sec with
-      | nil => intro _ _ _ _ e he; simp at he
-      | cons x rest ih =>
-        intro prev tbl t h e he
-        obtain ⟨k, v⟩ := x
-        have hE : Gen.legacyElseRaises = true := by decide
-        simp only [deserLoop, entryOf_eq_typed hE] at h
-        cases ht : typed v with
-        | error e' => simp [ht] at h
-        | ok tv =>
-          simp only [ht] at h
-          simp only [List.mem_cons] at he
-          rcases he with he | he
-          · subst he; exact ⟨tv, ht⟩
-          · exact ih _ _ _ h e he
-    exact key sec none [] t hl
+  | ok t => exact deserLoop_all_typed false sec none [] t hl
+
+theorem C16_all_typed_legacy (sec : List (Str × Str)) (cs : Table) (h : deserialize true sec = .ok cs) :
+    ∀ e ∈ sec, ∃ tv, typed e.2 = .ok tv := by
+  unfold deserialize at h
+  cases hl : deserLoop true sec none [] with
+  | error e => simp [hl] at h
+  | ok t => exact deserLoop_all_typed true sec none [] t hl
 
 /-- header-less (pre-productmd) files: `_fix_path` only rewrites ABSOLUTE keys, so a section whose keys are all
 relative is read exactly like a current one – the pointwise statement carries over -/
@@ -442,27 +449,102 @@ theorem C16_pointwise_legacy (sec : List (Str × Str)) (cs : Table)
     exact h
   exact C16_pointwise sec cs this
 
-/-- the legacy typing table is the documented one: 32/40/64 characters are md5/sha1/sha256, nothing else is accepted -/
+/-- the 22 hexadecimal digits (`string.hexdigits`) -/
+def hexDigits : Str := "0123456789abcdefABCDEF".toList
+
+/-- made of hexadecimal digits only (the empty string included) -/
+def isHex (v : Str) : Bool := v.all fun c => hexDigits.contains c
+
+theorem isHex_iff (v : Str) : isHex v = true ↔ ∀ c ∈ v, c ∈ hexDigits := by
+  simp [isHex, List.all_eq_true]
+
+/-- the legacy typing is the documented one: hex digits only (the guard is there and its digit table is
+`string.hexdigits`), 32/40/64 characters are md5/sha1/sha256, nothing else is accepted -/
 theorem C16_legacy_table :
     Gen.legacyDigestTypes = [(32, "md5".toList), (40, "sha1".toList), (64, "sha256".toList)]
-    ∧ Gen.legacyElseRaises = true := by decide
+    ∧ Gen.legacyElseRaises = true
+    ∧ Gen.legacyHexGuard = true ∧ Gen.legacyHexDigits = hexDigits := by decide
+
+theorem bareRefused_eq (v : Str) : bareRefused v = !isHex v := by
+  simp only [bareRefused, C16_legacy_table.2.2.1, C16_legacy_table.2.2.2, Bool.true_and, isHex]
 
 theorem C16_typed_bare (v : Str) (hc : v.contains ':' = false) :
-    typed v = if v.length = 32 then .ok ("md5".toList, v)
+    typed v = if isHex v = false then .error .valueError
+              else if v.length = 32 then .ok ("md5".toList, v)
               else if v.length = 40 then .ok ("sha1".toList, v)
               else if v.length = 64 then .ok ("sha256".toList, v)
               else .error .valueError := by
-  simp only [typed, hc, Bool.false_eq_true, if_false, typedBare, C16_legacy_table.1, List.find?]
-  by_cases h1 : v.length = 32
-  · simp [h1]
-  · by_cases h2 : v.length = 40
-    · simp [h2]
-    · by_cases h3 : v.length = 64
-      · simp [h3]
-      · have e1 : ((32 : Nat) == v.length) = false := by simp; omega
-        have e2 : ((40 : Nat) == v.length) = false := by simp; omega
-        have e3 : ((64 : Nat) == v.length) = false := by simp; omega
-        simp [h1, h2, h3, e1, e2, e3]
+  simp only [typed, hc, Bool.false_eq_true, if_false, typedBare, bareRefused_eq]
+  by_cases hx : isHex v = true
+  · simp only [hx, Bool.not_true, Bool.false_eq_true, if_false, chainBare, C16_legacy_table.1, List.find?]
+    by_cases h1 : v.length = 32
+    · simp [h1]
+    · by_cases h2 : v.length = 40
+      · simp [h2]
+      · by_cases h3 : v.length = 64
+        · simp [h3]
+        · have e1 : ((32 : Nat) == v.length) = false := by simp; omega
+          have e2 : ((40 : Nat) == v.length) = false := by simp; omega
+          have e3 : ((64 : Nat) == v.length) = false := by simp; omega
+          simp [h1, h2, h3, e1, e2, e3]
+  · have hx' : isHex v = false := by simpa using hx
+    simp [hx']
+
+/-- **every bare value containing a character that is not a hex digit is refused, whatever its length** (F36 fixed;
+`decide`s that the guard is in the source with `string.hexdigits` as its table) – and a section holding such an entry,
+in a current or a header-less file, does not load -/
+theorem C16_bare_nonhex_refused (v : Str) (hc : v.contains ':' = false) (c : Char) (hcv : c ∈ v) (hch : c ∉ hexDigits) :
+    typed v = .error .valueError
+    ∧ (∀ (legacy : Bool) (sec : List (Str × Str)) (p : Str) (cs : Table), (p, v) ∈ sec → deserialize legacy sec ≠ .ok cs) := by
+  have hx : isHex v = false := by
+    cases h : isHex v with
+    | false => rfl
+    | true => exact absurd ((isHex_iff v).mp h c hcv) hch
+  have ht : typed v = .error .valueError := by rw [C16_typed_bare v hc]; simp [hx]
+  refine ⟨ht, ?_⟩
+  intro legacy sec p cs hmem hok
+  have := match legacy, hok with
+    | false, hok => C16_all_typed sec cs hok (p, v) hmem
+    | true, hok => C16_all_typed_legacy sec cs hok (p, v) hmem
+  obtain ⟨tv, htv⟩ := this
+  rw [ht] at htv
+  cases htv
+
+/-- **the property's sentence at full strength**: a bare value (no colon) is accepted IFF it consists of 32, 40 or 64
+hexadecimal digits, and then it is typed md5, sha1, sha256 respectively with the value kept verbatim -/
+theorem C16_bare_typed_iff (v : Str) (hc : v.contains ':' = false) (tv : Str × Str) :
+    typed v = .ok tv ↔ (∀ c ∈ v, c ∈ hexDigits)
+      ∧ ((v.length = 32 ∧ tv = ("md5".toList, v)) ∨ (v.length = 40 ∧ tv = ("sha1".toList, v))
+         ∨ (v.length = 64 ∧ tv = ("sha256".toList, v))) := by
+  rw [C16_typed_bare v hc, ← isHex_iff]
+  by_cases hx : isHex v = true
+  · simp only [hx, Bool.true_eq_false, if_false, true_and]
+    by_cases h1 : v.length = 32
+    · simp only [h1, if_true, Except.ok.injEq, true_and]
+      constructor
+      · intro h; exact Or.inl h.symm
+      · intro h; rcases h with h | h | h
+        · exact h.symm
+        · omega
+        · omega
+    · by_cases h2 : v.length = 40
+      · simp only [h2, (by decide : ¬ (40 : Nat) = 32), (by decide : ¬ (40 : Nat) = 64), if_false, if_true, Except.ok.injEq, true_and, false_and, false_or, or_false]
+        exact ⟨fun h => h.symm, fun h => h.symm⟩
+      · by_cases h3 : v.length = 64
+        · simp only [h3, (by decide : ¬ (64 : Nat) = 32), (by decide : ¬ (64 : Nat) = 40), if_false, if_true, Except.ok.injEq, true_and, false_and, false_or, or_false]
+          exact ⟨fun h => h.symm, fun h => h.symm⟩
+        · simp [h1, h2, h3]
+  · have hx' : isHex v = false := by simpa using hx
+    simp [hx']
+
+/-- a value made of hex digits only is bare: the hypothesis "no colon" of the two theorems above is implied -/
+theorem C16_hex_is_bare (v : Str) (h : isHex v = true) : v.contains ':' = false := by
+  cases hc : v.contains ':' with
+  | false => rfl
+  | true =>
+    have hm : ':' ∈ v := by simpa using hc
+    have := (isHex_iff v).mp h ':' hm
+    exact absurd this (by decide)
 
 /-- the defect repaired by F3, as a statement about the loop without the final `else: raise`: the witness is kept so
 that the shape of the failure stays documented (here: what `typed` says about the input of the original report) -/
@@ -597,6 +679,14 @@ example : normpath "x/../..".toList = "..".toList := by decide
 example : Str.startsWith (normpath "a/./b".toList) ['/'] = false := by decide
 example : deserialize false [("a".toList, "sha256:00".toList), ("b".toList, List.replicate 32 'f')]
     = .ok [("a".toList, ("sha256".toList, "00".toList)), ("b".toList, ("md5".toList, List.replicate 32 'f'))] := by rfl
+/-- F36: what used to be typed by length alone is refused – 32 `z`, 32 full-width sevens, 64 `g`, hex with a line feed
+inside (an INI continuation line), hex of an unrecognised length; upper- and mixed-case hex digits are hex digits -/
+example : typed (List.replicate 32 'z') = .error .valueError ∧ typed (List.replicate 32 '７') = .error .valueError
+    ∧ typed (List.replicate 64 'g') = .error .valueError
+    ∧ typed (List.replicate 16 'a' ++ '\n' :: List.replicate 15 'b') = .error .valueError
+    ∧ typed (List.replicate 33 'f') = .error .valueError
+    ∧ typed (List.replicate 20 'A' ++ List.replicate 20 'b') = .ok ("sha1".toList, List.replicate 20 'A' ++ List.replicate 20 'b') := by
+  exact ⟨by rfl, by rfl, by rfl, by rfl, by rfl, by rfl⟩
 example : (addChecksums [] [("md5".toList, some "a".toList), ("md5".toList, some "b".toList), ("md5".toList, none)]).lookup "md5".toList
     = some (some "a".toList) := by decide
 example : readTrace true 4 9 = [4, 4, 1, 0] := by decide
